@@ -1,13 +1,4 @@
-import os
-
 from lib import flow, vlib
-
-# deviations found on the pinned tree, proposed as KNOWN_FINDINGS.json entries (id, property, what)
-PROPOSED_KF = [
-    dict(id='C19_NONUTF8_LABEL_PANIC', property='C19', what='a request_type or task_id that is not valid UTF-8 panics the handler inside prometheus WithLabelValues (server.go:89, cdc_impl.go:574-575, the latter after the task was stored)'),
-    dict(id='C19_DOT_NAME_PANIC', property='C19', what="a '.' in a collection or database name panics the create handler (GetCollectionNameFromFull), now or on every later create of the target"),
-    dict(id='C19_RPCPOS_ORPHAN_CKPT', property='C19', what='a create rejected for an undecodable rpc_channel_info.position leaves the collection checkpoint record of the rejected task in the store'),
-]
 
 ASSUME = [
     "environment: the production /cdc handler (server.NewCDCHandlerForVerif) around a real MetaCDC built through the "
@@ -47,11 +38,6 @@ C = dict(
 
 
 def run(tier, replay=None):
-    if os.environ.get("VERIF_ASSUME_KF"):
-        # selftest aid (selftest/C19.md): treat the proposed findings as if they were recorded, so that a run on the
-        # pinned tree is green and a mutant shows up as a NEW violation.  Never set in registered commands.
-        orig = vlib.known_findings
-        vlib.known_findings = lambda prop: orig(prop) + [k for k in PROPOSED_KF if k["property"] == prop]
     if not replay:
         r = vlib.run_tlc("HttpApi", "HttpApi_AsBuilt.cfg", workers=4, timeout=300)
         if not r.violated:
